@@ -36,6 +36,7 @@ from .execution import (
     record_cancel,
     record_failure,
     record_success,
+    settle_breaker,
 )
 from .retry import AsyncRetry
 from .types import (
@@ -121,6 +122,8 @@ class AsyncPolicy:
         except Exception as exc:
             self._handle_exception_call(ctx, exc, on_attempt_end)
             raise
+        finally:
+            settle_breaker(ctx)
 
     async def _call_without_retry(
         self,
@@ -224,31 +227,33 @@ class AsyncPolicy:
             return build_aborted_outcome(ctx)
 
         # Circuit breaker check
-        if ctx.breaker is not None:
-            decision = ctx.breaker.allow()
-            ctx.emit_breaker_event(decision.event, decision.state)
-            if not decision.allowed:
-                return build_circuit_open_outcome(ctx, decision.state.value)
+        try:
+            check_breaker(ctx)
+        except CircuitOpenError as exc:
+            return build_circuit_open_outcome(ctx, exc.state)
 
-        # Delegate to retry if configured
-        if self.retry is not None:
-            return await self._execute_with_retry(
-                ctx,
-                func,
-                on_metric,
-                on_log,
-                operation,
-                abort_if,
-                sleep,
-                before_sleep,
-                sleeper,
-                on_attempt_start,
-                on_attempt_end,
-                capture_timeline,
-            )
+        try:
+            # Delegate to retry if configured
+            if self.retry is not None:
+                return await self._execute_with_retry(
+                    ctx,
+                    func,
+                    on_metric,
+                    on_log,
+                    operation,
+                    abort_if,
+                    sleep,
+                    before_sleep,
+                    sleeper,
+                    on_attempt_start,
+                    on_attempt_end,
+                    capture_timeline,
+                )
 
-        # No retry - single attempt
-        return await self._execute_without_retry(ctx, func, on_attempt_start, on_attempt_end)
+            # No retry - single attempt
+            return await self._execute_without_retry(ctx, func, on_attempt_start, on_attempt_end)
+        finally:
+            settle_breaker(ctx)
 
     async def _execute_with_retry(
         self,
@@ -268,19 +273,24 @@ class AsyncPolicy:
         """Execute with retry and record result with breaker."""
         retry = self.retry
         assert retry is not None
-        outcome = await retry.execute(
-            func,
-            on_metric=on_metric,
-            on_log=on_log,
-            operation=operation,
-            abort_if=abort_if,
-            sleep=sleep,
-            before_sleep=before_sleep,
-            sleeper=sleeper,
-            on_attempt_start=on_attempt_start,
-            on_attempt_end=on_attempt_end,
-            capture_timeline=capture_timeline,
-        )
+        try:
+            outcome = await retry.execute(
+                func,
+                on_metric=on_metric,
+                on_log=on_log,
+                operation=operation,
+                abort_if=abort_if,
+                sleep=sleep,
+                before_sleep=before_sleep,
+                sleeper=sleeper,
+                on_attempt_start=on_attempt_start,
+                on_attempt_end=on_attempt_end,
+                capture_timeline=capture_timeline,
+            )
+        except RetryExhaustedError as exc:
+            # Raised by the operation itself (nested policy): same record as call().
+            record_failure(ctx, exc.last_class or ErrorClass.UNKNOWN)
+            raise
 
         # Record with circuit breaker
         if ctx.breaker is not None:
